@@ -26,7 +26,20 @@ def _unparen(t):
     return t
 
 
-def index_guard(text, idxnode, par, aliases=()):
+def _tails(e):
+    """the expressions an if / block expression can evaluate to"""
+    if e["k"] == "If" and e.get("else") is not None:
+        return _tails(e["then"]) + _tails(e["else"])
+    if e["k"] == "Block":
+        if e["stmts"] and e["stmts"][-1]["k"] == "ExprStmt" and not e["stmts"][-1].get("semi"):
+            return _tails(e["stmts"][-1]["expr"])
+        return [e]
+    if e["k"] == "Paren":
+        return _tails(e["expr"])
+    return [e]
+
+
+def index_guard(text, idxnode, par, aliases=(), _depth=0):
     """returns a description of the dominating bounds test for `base[X]`, or None. text(node) -> normalised source.
     aliases: other expressions with the same length as base (e.g. the str a byte slice was taken from)"""
     base = text(idxnode["base"])
@@ -76,6 +89,38 @@ def index_guard(text, idxnode, par, aliases=()):
                                             reassigned = True
                             if not reassigned:
                                 return f"after `if {t} {{ exit }}`"
+    # an index bound once from guarded values: `let anchor = if .. { cursor - 1 } else { cursor };` after `if cursor >= bytes.len() { return }`
+    if re.fullmatch(r"[a-z_][a-z0-9_]*", X) and _depth < 2:
+        for a in par.ancestors(idxnode):
+            if a["k"] != "Block":
+                continue
+            for st in a["stmts"]:
+                if (st["sp"][0], st["sp"][1]) >= (idxnode["sp"][0], idxnode["sp"][1]):
+                    break
+                if st["k"] == "Local" and st["pat"]["k"] == "PIdent" and st["pat"]["name"] == X and not st["pat"].get("mut") and st.get("init") is not None:
+                    tails = _tails(st["init"])
+                    srcs = []
+                    for t_ in tails:
+                        if t_["k"] == "Path" and len(t_["segs"]) == 1:
+                            srcs.append(t_)
+                        elif t_["k"] == "Binary" and t_["op"] == "-" and t_["left"]["k"] == "Path" and len(t_["left"]["segs"]) == 1 and t_["right"]["k"] == "Lit":
+                            srcs.append(t_["left"])
+                        else:
+                            srcs = None
+                            break
+                    if srcs:
+                        why = []
+                        for w in srcs:
+                            fake = {"k": "Index", "base": idxnode["base"], "index": w, "sp": st["sp"]}
+                            par.p[id(fake)] = st
+                            g_ = index_guard(text, fake, par, aliases, _depth + 1)
+                            par.p.pop(id(fake), None)
+                            if g_ is None:
+                                why = None
+                                break
+                            why.append(g_)
+                        if why:
+                            return f"`{X}` is bound once from {sorted({text(w) for w in srcs})}, each bounded: {why[0]}"
     m = re.fullmatch(r"([a-z_]+)-(\d+)", X)
     if m:
         v, k = m.group(1), m.group(2)
